@@ -329,6 +329,11 @@ func genC02EnvShapes(w *caseWriter, st *pkgStats) int {
 		doc2 := strings.Replace(doc, "version: ${VERIF_V}", "version: 2.0.0-beta1+git5", 1)
 		runPkgCase(w, fmt.Sprintf("h-literal-version-and-an-empty-prerelease-variable-%d", n), pkgDesc{YAML: doc2, Formats: rotate(allFormats, n+1), Env: map[string]string{"VERIF_P": "", "VERIF_PLAT": e["VERIF_PLAT"], "VERIF_D": e["VERIF_D"]}}, st, nil)
 	}
+	// pre-dependencies stated in the format's own block inside its override block
+	n++
+	runPkgCase(w, fmt.Sprintf("h-predepends-in-the-override-block-%d", n), pkgDesc{YAML: "name: ovpd\narch: amd64\nversion: 1.0.0\nmaintainer: M <m@example.com>\nmtime: 2023-11-14T22:13:20Z\n" +
+		"rpm:\n  buildhost: builder.example.org\ndeb:\n  predepends: [top-pd]\nipk:\n  predepends: [top-ipd]\noverrides:\n  deb:\n    deb:\n      predepends: [over-pd, \"over-pd2 (>= 1)\"]\n  ipk:\n    ipk:\n      predepends: [over-ipd]\n" +
+		"contents:\n  - src: src/f1\n    dst: /usr/bin/ovpd\n", Formats: []string{"deb", "ipk", "rpm"}}, st, nil)
 	return n
 }
 
@@ -484,6 +489,14 @@ func genEdgeShapes(w *caseWriter, st *pkgStats) int {
 	c.Contents = files.Contents{{Source: "src/f1", Destination: "/opt/umaskall/f1"}, {Source: "src/d", Destination: "/opt/umaskall/tree", Type: files.TypeTree},
 		{Source: "src/f2", Destination: "/opt/umaskall/explicit", FileInfo: &files.ContentFileInfo{Mode: 0o640}}}
 	emit("umask-0777", c, nil)
+	// ghosts without a declared mode under umasks that share bits with 0644: a ghost has nothing a umask applies to
+	for ui, um := range []os.FileMode{0o27, 0o77, 0o66} {
+		c = baseConfig(fmt.Sprintf("ghostumask%d", ui))
+		c.Umask = um
+		c.Contents = files.Contents{{Destination: "/var/log/ghostumask/app.log", Type: files.TypeRPMGhost}, {Source: "src/f1", Destination: "/opt/ghostumask/f1"},
+			{Destination: "/var/lib/ghostumask/state", Type: files.TypeRPMGhost, FileInfo: &files.ContentFileInfo{Mode: 0o664}}}
+		emit(fmt.Sprintf("ghost-without-mode-under-umask-%o", um), c, nil)
+	}
 	c = baseConfig("umask700")
 	c.Umask = 0o700
 	c.Contents = files.Contents{{Source: "src/d/x", Destination: "/opt/umask700/was-0600"}, {Source: "src/f1", Destination: "/opt/umask700/was-0644"}}
